@@ -216,23 +216,31 @@ const keyEsc = "\\" + "u00"
 func escapeKeyStarts(doc string) string {
 	var sb strings.Builder
 	for i := 0; i < len(doc); i++ {
-		sb.WriteByte(doc[i])
-		if doc[i] != '"' || i+1 >= len(doc) || doc[i+1] == '"' {
+		if doc[i] != '"' {
+			sb.WriteByte(doc[i])
 			continue
 		}
-		// is this quote the start of a member name?  (the string is followed by a colon)
+		// a string literal doc[i..j], honouring backslash escapes
 		j := i + 1
 		for j < len(doc) && doc[j] != '"' {
+			if doc[j] == '\\' {
+				j++
+			}
 			j++
 		}
-		if j+1 < len(doc) && doc[j+1] == ':' && (i == 0 || doc[i-1] == '{' || doc[i-1] == ',') {
+		if j >= len(doc) {
+			sb.WriteString(doc[i:])
+			break
+		}
+		isKey := j+1 < len(doc) && doc[j+1] == ':' && (i == 0 || doc[i-1] == '{' || doc[i-1] == ',')
+		if isKey && j > i+1 && doc[i+1] != '\\' {
+			sb.WriteByte('"')
 			fmt.Fprintf(&sb, "%s%02x", keyEsc, doc[i+1])
 			sb.WriteString(doc[i+2 : j+1])
-			i = j
 		} else {
-			sb.WriteString(doc[i+1 : j+1])
-			i = j
+			sb.WriteString(doc[i : j+1])
 		}
+		i = j
 	}
 	return sb.String()
 }
